@@ -16,15 +16,23 @@ SPECIES_POOL = ["H2", "O2", "H2O", "N2", "OH", "CH4", "CO2", "CH2(S)"]
 
 @st.composite
 def chk_specs(draw, tier="quick"):
-    base = draw(plotgen.plot_specs(thin=True, ndims=3, max_levels=3, max_cells=1200 if tier == "quick" else 4000, fields=["x"],
+    base = draw(plotgen.plot_specs(thin=True, ndims=3, max_levels=4, max_cells=1200 if tier == "quick" else 4000, fields=["x"],
                                    payload_kinds=("coded",), layouts=("single",)))
+    if base["mesh"]["nlev"] == 4:
+        base["mesh"]["nb0"] = [min(n, 2) for n in base["mesh"]["nb0"]]       # four levels: keep the finest grid small
     nspec = draw(st.integers(1, 5))
+    big = draw(st.integers(0, 2 ** 16)) % 25 == 7
+    if big:
+        # eight 16^3 boxes on one level, all five data subsets in one file each: the state file and the written Cell_D file
+        # pass one megabyte, so byte offsets gain a seventh digit
+        base["mesh"].update(bf=8, m=2, nb0=[4, 4, 4], nlev=1, rects=[], no_unit=False, chop_seed=0, thin0=0)
     # non-integral times only: the reader's "value % 1 == 0" test for the optional integer line is a format ambiguity
     time = draw(st.sampled_from([1.6457727058794072e-11, 0.25, 3.5, -2.5, 70100.125, 1e-300]))
     return dict(mesh=base["mesh"], geom=base["geom"], time=time, step=draw(st.sampled_from([5, 0, 70100])),
                 nspec=nspec, nghost=draw(st.integers(1, 3)), int_line=draw(st.booleans()),
                 coord_line=draw(st.sampled_from([True, True, False])),
-                layouts={s: draw(plotgen.layouts()) for s in SUBSETS}, seed=draw(st.integers(0, 9999)))
+                layouts={s: (dict(cls="single", seed=0, nfiles=1) if big else draw(plotgen.layouts())) for s in SUBSETS},
+                seed=draw(st.integers(0, 9999)), big=big)
 
 
 class Checkpoint:
@@ -92,6 +100,8 @@ class Checkpoint:
                 lab.append(f"{s}:non-monotone")
         if any(self.layout["state"][l] != self.layout["gradp"][l] for l in range(self.nlev)):
             lab.append("state/gradp-layouts-differ")
+        if self.spec.get("big"):
+            lab.append("state-file>1MB")
         return lab
 
 
